@@ -29,6 +29,31 @@ func (b *Box) Apply(fn func(*Box)) { fn(b) }
 
 func Each(cb func()) { cb() }
 
+// named types with mutating methods that the victim never applies to its own data: targets of
+// the "convert, then mutate through the converted value" attacks
+type Ints []int
+
+func (s Ints) Set(i, v int)  { s[i] = v }
+func (s Ints) Swap(i, j int) { s[i], s[j] = s[j], s[i] }
+
+type IntMap map[string]int
+
+func (m IntMap) Put(k string, v int) { m[k] = v }
+func (m IntMap) Del(k string)        { delete(m, k) }
+
+type Arr3 [3]int
+
+func (a *Arr3) Set(i, v int) { a[i] = v }
+
+type Twin struct {
+	V    int
+	Tags []string
+	Kids map[string]int
+}
+
+func (t *Twin) SetV(v int)          { t.V = v }
+func (t Twin) Tag(i int, s string)  { t.Tags[i] = s }
+
 func Itoa(n int) string {
 	if n == 0 {
 		return "0"
@@ -66,7 +91,11 @@ func (b *Box) String() string {
 
 const victimSrc = `package victim
 
-import "gno.land/p/verif/lib"
+import (
+	"sort"
+
+	"gno.land/p/verif/lib"
+)
 
 type Inner struct {
 	N    int
@@ -87,6 +116,8 @@ type T struct {
 
 type Doer interface{ Do() }
 
+type Scores []int
+
 var (
 	G    T
 	GP   *T
@@ -96,13 +127,16 @@ var (
 	GArr [3]int
 	GB   *lib.Box
 	GAny any
+	GStr    []string
+	GFl     []float64
+	GScores Scores
 	priv *T
 	ptrs []*T
 	resets int
 )
 
 func mk(seed int) *T {
-	back := []int{seed + 1, seed + 2, seed + 3, seed + 4}
+	back := []int{seed + 3, seed + 1, seed + 2, seed + 4}
 	return &T{
 		N:   seed,
 		S:   "s" + lib.Itoa(seed),
@@ -120,12 +154,15 @@ func reset() {
 	G = *mk(100)
 	GP = mk(200)
 	GI = 7
-	gs := []int{1, 2, 3, 4}
+	gs := []int{3, 1, 2, 4}
 	GS = gs[:3]
 	GM = map[string]int{"a": 1, "b": 2}
 	GArr = [3]int{4, 5, 6}
 	GB = lib.NewBox(8)
 	GAny = mk(300)
+	GStr = []string{"c", "a", "b"}
+	GFl = []float64{3.5, 1.5, 2.5}
+	GScores = Scores{30, 10, 20}
 	priv = mk(400)
 	ptrs = []*T{mk(500), mk(600)}
 }
@@ -146,6 +183,9 @@ func GetIfaceSlice() any       { return priv.Sl }
 func GetIfaceMap() any         { return priv.M }
 func GetBox() *lib.Box         { return priv.B }
 func GetPtrs() []*T            { return ptrs }
+func GetStrs() []string        { return GStr }
+func GetFloats() []float64     { return GFl }
+func GetScores() Scores        { return GScores }
 func (t *T) Peek() int         { return t.N }
 func (t *T) Self() *T          { return t }
 func (t *T) Slice() []int      { return t.Sl }
@@ -162,6 +202,7 @@ func VisitDoer(cur realm, d Doer)               { d.Do() }
 func (t *T) Bump()           { t.N++ }
 func GetSetter() func(int)   { return func(v int) { priv.N = v } }
 func GetBumper() func()      { return priv.Bump }
+func SwapOwn()               { sort.IntSlice(priv.Sl).Swap(0, 1) }
 func Zero(cur realm, s []int) {
 	for i := range s {
 		s[i] = 0
@@ -227,6 +268,15 @@ func TouchNC() {
 		GArr[i] = GArr[i]
 	}
 	touchBox(GB)
+	for i := range GStr {
+		GStr[i] = GStr[i]
+	}
+	for i := range GFl {
+		GFl[i] = GFl[i]
+	}
+	for i := range GScores {
+		GScores[i] = GScores[i]
+	}
 	if t, ok := GAny.(*T); ok {
 		touchT(t)
 	}
@@ -290,6 +340,11 @@ func Dump() string {
 	} else {
 		s += "\nGAny=?"
 	}
+	s += "\nGStr=" + dumpStrs(GStr) + "\nGFl=["
+	for _, f := range GFl {
+		s += lib.Itoa(int(f*10)) + ","
+	}
+	s += "]\nGScores=" + dumpInts([]int(GScores))
 	s += "\npriv=" + dumpT(priv)
 	for i, p := range ptrs {
 		s += "\nptrs" + lib.Itoa(i) + "=" + dumpT(p)
